@@ -112,7 +112,9 @@ def match_known(known, prop, kind, key):
         if e.get("property") != prop:
             continue
         m = e.get("match", {})
-        if m.get("kind") == kind and m.get("key") == key:
+        if m.get("kind") != kind:
+            continue
+        if m.get("key") == key or (m.get("key_prefix") and key.startswith(m["key_prefix"])):
             return e
     return None
 
